@@ -216,19 +216,25 @@ func init() {
 		return SV{K: KTuple, Tuple: []SV{Scalar(n), Scalar(e)}}
 	})
 
-	regDep("invoke io.Reader.Read", []string{"BMem", "RPos"}, "r.Read(p): weak stream contract: returns any 0 <= n <= len(p) and any error (n >= 1 and nil error while the source still delivers len(p) bytes); the first n bytes of p are the next n bytes of the stream, the rest of p is unchanged; short reads allowed", func(ex *Exec, st *State, c *ssa.Call, a []SV) SV {
+	regDep("invoke io.Reader.Read", []string{"BMem", "RPos"}, "r.Read(p) (stream contract of a source): returns 0 <= n <= len(p) and any error; never more than the source still delivers (pos+n <= ravail when pos <= ravail, else n == 0); the first n bytes of p are the next n bytes of the stream, the rest of p is unchanged; position += n; n == 0 with a nil error only for len(p) == 0; while the source still delivers len(p) bytes: n >= 1 and nil error", func(ex *Exec, st *State, c *ssa.Call, a []SV) SV {
 		r, buf := a[0].T, a[1]
 		ex.safety(st, "nilreader", Not(Eq(r, IntLit(0))), c, "nil io.Reader")
 		pos := ex.define(st, "rpos", Select(st.heap["RPos"], r))
+		avail := App(SInt, "f_ravail", r)
 		n := ex.fresh("read_n", SInt)
 		e := ex.fresh("read_err", SErr)
 		st.assume(And(Le(IntLit(0), n), Le(n, buf.Len)))
+		st.assume(Le(n, Ite(Ge(Sub(avail, pos), IntLit(0)), Sub(avail, pos), IntLit(0))))
+		st.assume(Implies(And(Eq(n, IntLit(0)), Gt(buf.Len, IntLit(0))), Not(Eq(e, T(SErr, "nilErr")))))
 		// a source that still delivers len(p) bytes does not fail and makes progress
-		st.assume(Implies(And(Gt(buf.Len, IntLit(0)), Le(Add(pos, buf.Len), App(SInt, "f_ravail", r))), And(Ge(n, IntLit(1)), Eq(e, T(SErr, "nilErr")))))
+		st.assume(Implies(And(Gt(buf.Len, IntLit(0)), Le(Add(pos, buf.Len), avail)), And(Ge(n, IntLit(1)), Eq(e, T(SErr, "nilErr")))))
+		old := ex.sliceBytes(st, buf)
 		newContent := ex.fresh("read_buf", SBytes)
 		st.assume(Eq(App(SInt, "f_blen", newContent), buf.Len))
+		st.assume(Eq(App(SBytes, "f_bsub", newContent, IntLit(0), n), App(SBytes, "f_rseg", r, pos, n)))
+		st.assume(Eq(App(SBytes, "f_bsub", newContent, n, Sub(buf.Len, n)), App(SBytes, "f_bsub", old, n, Sub(buf.Len, n))))
 		st.assume(Implies(Eq(n, buf.Len), Eq(newContent, App(SBytes, "f_rseg", r, pos, buf.Len))))
-		st.assume(Implies(Eq(n, IntLit(0)), Eq(newContent, ex.sliceBytes(st, buf))))
+		st.assume(Implies(Eq(n, IntLit(0)), Eq(newContent, old)))
 		ex.writeBytes(st, buf, newContent, c)
 		st.heap["RPos"] = ex.define(st, "RPos", Store(st.heap["RPos"], r, Add(pos, n)))
 		return SV{K: KTuple, Tuple: []SV{Scalar(n), Scalar(e)}}
@@ -303,6 +309,12 @@ func init() {
 		}
 		e := ex.fresh("errorf", SErr)
 		st.assume(And(Eq(App(SInt, "f_eref", e), r), Eq(App(SStr, "f_msg", e), msg)))
+		// %w: errors.Is(e, t) holds whenever it holds for a wrapped error
+		for _, inner := range ex.wrapped {
+			t := T(SErr, "t")
+			st.assume(Forall([]Term{t}, Implies(App(SBool, "f_is", inner, t), App(SBool, "f_is", e, t)), App(SBool, "f_is", e, t)))
+		}
+		ex.wrapped = nil
 		return Scalar(e)
 	})
 	regDep("fmt.Sprintf", nil, "fmt.Sprintf(constFormat, args): as for Errorf", func(ex *Exec, st *State, c *ssa.Call, a []SV) SV {
@@ -348,6 +360,11 @@ func (ex *Exec) writeBytes(st *State, buf SV, content Term, c ssa.Instruction) {
 	st.assume(Eq(App(SInt, "f_blen", nm), App(SInt, "f_blen", mem)))
 	st.assume(Implies(whole, Eq(nm, content)))
 	st.assume(Eq(App(SBytes, "f_bsub", nm, buf.Off, buf.Len), content))
+	// the bytes before and after the written window are unchanged
+	st.assume(Eq(App(SBytes, "f_bsub", nm, IntLit(0), buf.Off), App(SBytes, "f_bsub", mem, IntLit(0), buf.Off)))
+	end := Add(buf.Off, buf.Len)
+	rest := Sub(App(SInt, "f_blen", mem), end)
+	st.assume(Eq(App(SBytes, "f_bsub", nm, end, rest), App(SBytes, "f_bsub", mem, end, rest)))
 	st.heap["BMem"] = ex.define(st, "BMem", Store(st.heap["BMem"], buf.Ref, nm))
 }
 
@@ -410,6 +427,18 @@ func (ex *Exec) formatMessage(st *State, c *ssa.Call, a []SV) (Term, bool) {
 			parts = append(parts, T(SStr, s[len("(f_anyStr "):len(s)-1]))
 		case (verb == 'd' || verb == 'v') && strings.HasPrefix(s, "(f_anyInt "):
 			parts = append(parts, App(SStr, "f_itoa", T(SInt, s[len("(f_anyInt "):len(s)-1])))
+		case verb == 'q' && strings.HasPrefix(s, "(f_anyStr "):
+			// %q of a string: the quoted form is taken to name the string (escapes aside)
+			ex.declareFun("f_quote", []string{SStr}, SStr)
+			inner := T(SStr, s[len("(f_anyStr "):len(s)-1])
+			q := App(SStr, "f_quote", inner)
+			st.assume(App(SBool, "f_contains", q, inner))
+			parts = append(parts, q)
+		case verb == 'w' && strings.HasPrefix(s, "(f_anyErr "):
+			plain = false
+			innerE := T(SErr, s[len("(f_anyErr "):len(s)-1])
+			ex.wrapped = append(ex.wrapped, innerE)
+			parts = append(parts, App(SStr, "f_msg", innerE))
 		case verb == 'w':
 			plain = false
 			ex.declareFun("f_fmtAny", []string{SInt, SAny}, SStr)
